@@ -119,7 +119,10 @@ H_EBegin(s, r, l) ==
 H_EEnd(s, r, l) ==
   LET i == SessByE(s, r.ch) IN
   IF i = 0 \/ ~LiveE(s.ss[i]) THEN R(s, Fail("C13_EndAtMostOnce", l, ""))
-  ELSE LET fl == Chk("C13_Flush", ~(ConnUp(s) /\ \E k \in DOMAIN s.ls : s.ls[k].ech = r.ch /\ Stuck(s, k) = "stuck"), l, "end") IN
+  ELSE LET fl == Chk("C13_Flush", ~(ConnUp(s) /\ \E k \in DOMAIN s.ls : s.ls[k].ech = r.ch /\ Stuck(s, k) = "stuck"), l, "end")
+                 \* a cancelled call leaves the session usable: the endpoint does not end it with an error of its own making
+                 + Chk("C16_LaterIntact", r.f.err = "" \/ s.illegal \/ s.garbage \/ s.appTeardown \/ s.ss[i].pEnded
+                                          \/ ~\E k \in DOMAIN s.ls : s.ls[k].ech = r.ch /\ s.ls[k].cancels > 0, l, "session-ended") IN
        RF(fl, [s EXCEPT !.ss[i].eEnded = TRUE,
                    !.ls = [k \in DOMAIN s.ls |-> IF s.ls[k].ech = r.ch /\ LinkLiveE(s.ls[k]) THEN [s.ls[k] EXCEPT !.eDet = TRUE] ELSE s.ls[k]]])
 
@@ -412,7 +415,8 @@ H_RecvRet(s, r, l) ==
   LET y == s.ls[k] j == FirstIdx(y.inq, Eligible) IN
   IF ~r.res.ok
   THEN \* an error result consumes nothing the observer can name; a contradictory or over-limit delivery is dropped with it
-       R(SetL(s, k, [y EXCEPT !.inq = SelectSeq(@, LAMBDA e : ~e.contra /\ ~(e.complete /\ e.aborted)), !.broken = TRUE, !.errTold = TRUE]),
+       \* (a cancelled call is not an error of the link)
+       R(SetL(s, k, IF r.res.class = "Cancelled" THEN y ELSE [y EXCEPT !.inq = SelectSeq(@, LAMBDA e : ~e.contra /\ ~(e.complete /\ e.aborted)), !.broken = TRUE, !.errTold = TRUE]),
          Chk("C13_PeerError", ~(y.pDet /\ y.pDetFirst /\ y.pDetErr # "" /\ ~y.errTold) \/ r.res.cond = y.pDetErr, l, "recv")
          \* recv fails only for a reason: the connection / session / link has stopped or is stopping, the call was cancelled,
          \* or the peer's transfers were contradictory, aborted or beyond the credit issued
